@@ -516,8 +516,8 @@ macro_rules! impl_cache_processor {
                     self.start_ts.insert(key, Time::now());
                 }
                 #[cfg(transparencies_stretto_verif)]
-                crate::verif::counters::START_TS_LEN
-                    .store(self.start_ts.len() as u64, std::sync::atomic::Ordering::SeqCst);
+                self.verif_guard
+                    .set(&crate::verif::counters::START_TS_LEN, self.start_ts.len() as u64);
             }
 
             #[inline]
@@ -527,8 +527,8 @@ macro_rules! impl_cache_processor {
                     self.start_ts.remove(&item.index);
                 }
                 #[cfg(transparencies_stretto_verif)]
-                crate::verif::counters::START_TS_LEN
-                    .store(self.start_ts.len() as u64, std::sync::atomic::Ordering::SeqCst);
+                self.verif_guard
+                    .set(&crate::verif::counters::START_TS_LEN, self.start_ts.len() as u64);
             }
         }
     };
@@ -747,7 +747,7 @@ macro_rules! impl_cache_cleaner {
             #[inline]
             fn handle_item(&mut self, item: $item<V>) {
                 #[cfg(transparencies_stretto_verif)]
-                crate::verif::counters::inc(&crate::verif::counters::ITEMS_DRAINED);
+                self.processor.verif_guard.inc(&crate::verif::counters::ITEMS_DRAINED);
                 match item {
                     $item::New {
                         key,
